@@ -171,6 +171,73 @@ pub open spec fn sign_term_ok(d: int) -> bool { (1 + d) % N() != 0 }
 proof fn lemma_sign_term_ok(d: int) requires 1 <= d <= N() - 2 ensures sign_term_ok(d)
 { lemma_params(); lemma_small_mod((1 + d) as nat, N() as nat); }
 spec fn sk_ok(k: Sm2PrivateKey) -> bool { 1 <= val4(k.d@) <= N() - 2 && pk_ok(k.public_key) && abs(k.public_key.point) == g_smul(val4(k.d@), G()) }
+// ---- stage lemmas of the protocol functions: the exec bodies only establish the individual facts listed in `requires`
+// 7.1 B1-B7 from the facts of an accepting run of verify_raw: rb, sb are the integers decoded from the signature, ev from the digest;
+// t = (s + r) mod n, q = [s]G + [t]PA, x1 = x(q), r1 = (x1 mod n + ev mod n) mod n
+proof fn lemma_verify_final(pa: Pt, e: int, rb: int, sb: int, r: int, s: int, t: int, q: Pt, x1: int, ev: int, r1: int)
+    requires
+        rb == r,
+        sb == s,
+        ev == e,
+        r != 0,
+        s != 0,
+        0 <= r < N(),
+        0 <= s < N(),
+        t == (s + r) % N(),
+        t != 0,
+        q == g_add(g_smul(s, G()), g_smul(t, pa)),
+        q != Pt::Inf,
+        x1 == pt_x(q),
+        r1 == ((x1 + 0) % N() + (ev + 0) % N()) % N(),
+        r == r1,
+    ensures valid_sig(pa, e, rb, sb)
+{ lemma_params(); lemma_add_mod_noop(x1, ev, N()); }
+// 7.1 B1-B7 from the facts of an accepting run of decrypt: c1, c2, c3 are the three slices taken from the ciphertext, q the decoded C1,
+// sp = [d]q, m the returned plaintext
+proof fn lemma_decrypt_final(d: int, ct: Seq<u8>, compressed: bool, model: Sm2Model, q: Pt, c1: Seq<u8>, c2: Seq<u8>, c3: Seq<u8>, sp: Pt, m: Seq<u8>)
+    requires
+        ct.len() > c1_len(compressed) + 32,
+        c1 == ct.subrange(0, c1_len(compressed)),
+        c2 == ct_c2(ct, compressed, model),
+        c3 == ct_c3(ct, compressed, model),
+        sec1_decodes(c1, q),
+        on_curve(q),
+        sp == g_smul(d, q),
+        m == s_xor(c2, s_kdf(xy_bytes(sp), c2.len())),
+        c3 == s_c3(sp, m),
+    ensures dec_ok(d, ct, compressed, model, q, m), dec_accept(d, ct, compressed, model, m)
+{ assert(dec_ok(d, ct, compressed, model, q, m)); }
+// 6.1 A1-A8 from the facts of an accepted iteration of encrypt: c1, c2, c3 are the three parts, c the assembled output
+proof fn lemma_encrypt_final(k: int, pa: Pt, m: Seq<u8>, compressed: bool, model: Sm2Model, c1: Seq<u8>, c2: Seq<u8>, c3: Seq<u8>, c: Seq<u8>)
+    requires
+        1 <= k < N(),
+        c1 == sec1(g_smul(k, G()), compressed),
+        c2 == s_xor(m, s_kdf(xy_bytes(g_smul(k, pa)), m.len())),
+        c3 == s_c3(g_smul(k, pa), m),
+        c =~= (match model { Sm2Model::C1C2C3 => c1 + c2 + c3, Sm2Model::C1C3C2 => c1 + c3 + c2 }),
+    ensures enc_from_nonce(k, pa, m, compressed, model, c)
+{ }
+// limb arrays stay abstract in the protocol functions (`hide(val4)`): the only limb-level fact they need is the range
+proof fn lemma_val4_range() ensures forall|a: Seq<u64>| a.len() == 4 ==> 0 <= #[trigger] val4(a) < r256()
+{ assert forall|a: Seq<u64>| a.len() == 4 implies 0 <= #[trigger] val4(a) < r256() by { lemma_val4_bounds(a); } }
+// 6.1 A3-A7 from the facts of one accepted iteration of sign_raw: x1 = x([k]G), r = (e mod n + x1 mod n) mod n, m = r d, u = k - m, s = s1 u;
+// rb, sb are the integers read back from the two halves of the output
+proof fn lemma_sign_final(k: int, d: int, e: int, x1: int, r: int, m: int, u: int, s1: int, s: int, rb: int, sb: int)
+    requires
+        1 <= k < N(),
+        x1 == pt_x(g_smul(k, G())),
+        r == ((e + 0) % N() + (x1 + 0) % N()) % N(),
+        r != 0,
+        r + k != N(),
+        m == (r * d) % N(),
+        u == (k - m) % N(),
+        s1 == inv_n(1 + d),
+        s == (s1 * u) % N(),
+        s != 0,
+        rb == r,
+        sb == s,
+    ensures sig_from_nonce(k, d, e, rb, sb)
+{ lemma_params(); lemma_add_mod_noop(e, x1, N()); }
 //@section code gm-sm2/src/key.rs
 enum Sm2Model {
     C1C2C3,
@@ -193,6 +260,7 @@ impl Sm2PublicKey {
         ensures res is Ok ==> pk_ok(res->Ok_0) && sec1_decodes(pk@, abs(res->Ok_0.point)),
             (pk@.len() != 33 && pk@.len() != 65) ==> res is Err,
     {
+        hide(val4); hide(g_smul);
         let p = Point::from_byte(pk)?;
         proof { assert(fe(p.z@) == 1 ==> val4(p.z@) != 0); }
         if p.is_valid() {
@@ -204,13 +272,16 @@ impl Sm2PublicKey {
 
 //@props C05 C14 C20
     #[verifier::exec_allows_no_decreases_clause]
+    #[verifier::spinoff_prover]
     fn encrypt(&self, msg: &[u8], compressed: bool, model: Sm2Model) -> (res: Sm2Result<Vec<u8>>)
         requires pk_ok(*self), 1 <= msg@.len() < 0x1_0000_0000
         ensures res is Ok ==> (exists|k: Seq<u64>| #[trigger] csprng(k) && enc_from_nonce(val4(k), abs(self.point), msg@, compressed, model, res->Ok_0@)),
     {
+        hide(val4); hide(g_smul);
         loop
             invariant pk_ok(*self), 1 <= msg@.len() < 0x1_0000_0000,
         {
+            proof { lemma_val4_range(); }
             let klen = msg.len();
             let k = random_u256();
             let c1_p = g_mul(&k);
@@ -272,8 +343,7 @@ impl Sm2PublicKey {
                     assert(abs(c1_p) == g_smul(val4(k@), G()));
                     assert(c2@ == s_xor(msg@, s_kdf(xy_bytes(sp), msg@.len())));
                     assert(c3@ == s_c3(sp, msg@));
-                    assert(c@ =~= (match model { Sm2Model::C1C2C3 => c1 + c2@ + c3@, Sm2Model::C1C3C2 => c1 + c3@ + c2@ }));
-                    assert(enc_from_nonce(val4(k@), abs(self.point), msg@, compressed, model, c@));
+                    lemma_encrypt_final(val4(k@), abs(self.point), msg@, compressed, model, c1, c2@, c3@, c@);
                 }
                 return Ok(c);
             }
@@ -288,6 +358,7 @@ impl Sm2PublicKey {
             && valid_sig(abs(self.point), s_e(s_id(id), abs(self.point), msg@),
                          be_val(sig@.subrange(0, 32)), be_val(sig@.subrange(32, 64))),
     {
+        hide(val4); hide(g_smul);
         let id = shim_id_or_default(id);
         let mut digest = compute_za(id, &self.point)?;
         proof { lemma_sm3_len(s_za(str_bytes(id), pt_x(abs(self.point)), pt_y(abs(self.point))) + msg@); }
@@ -297,18 +368,20 @@ impl Sm2PublicKey {
     }
 
 //@props C03 C04 C20
+    #[verifier::spinoff_prover]
     fn verify_raw(&self, digest: &[u8], pk: &Point, sig: &[u8]) -> (res: Sm2Result<()>)
         requires valid(*pk), val4(pk.z@) != 0,
         ensures res is Ok ==> sig@.len() == 64 && digest@.len() == 32
             && valid_sig(abs(*pk), be_val(digest@), be_val(sig@.subrange(0, 32)), be_val(sig@.subrange(32, 64))),
     {
+        hide(val4); hide(g_smul);
         if digest.len() != 32 {
             return Err(Sm2Error::InvalidDigestLen);
         }
         if sig.len() != 64 {
             return Err(Sm2Error::InvalidDigest);
         }
-        proof { lemma_key_consts(); lemma_params(); lemma_g_on_curve(); }
+        proof { lemma_key_consts(); lemma_params(); lemma_g_on_curve(); lemma_val4_range(); }
         let n = &SM2_N;
         let r = &u256_from_be_bytes(&sig[..32]);
         let s = &u256_from_be_bytes(&sig[32..]);
@@ -346,10 +419,11 @@ impl Sm2PublicKey {
         let e = u256_from_be_bytes(&digest);
         let r1 = fn_add(&fn_add(&x1, &SM2_ZERO), &fn_add(&e, &SM2_ZERO));
         proof {
-            lemma_add_mod_noop(val4(x1@), val4(e@), N());
-            if val4(r@) == val4(r1@) { lemma_small_mod(val4(r1@) as nat, N() as nat); }
             assert(val4(x1@) == pt_x(q));
-            assert(val4(t@) == (val4(r@) + val4(s@)) % N());
+            if val4(r@) == val4(r1@) {
+                lemma_verify_final(abs(*pk), be_val(digest@), be_val(sig@.subrange(0, 32)), be_val(sig@.subrange(32, 64)),
+                    val4(r@), val4(s@), val4(t@), q, val4(x1@), val4(e@), val4(r1@));
+            }
         }
         return if u256_cmp(r, &r1) == 0 {
             Ok(())
@@ -371,10 +445,11 @@ impl Sm2PrivateKey {
             (sk@.len() != 32 || be_val(sk@) == 0 || be_val(sk@) > N() - 2) ==> res is Err,
             res is Ok ==> sign_term_ok(val4(res->Ok_0.d@)),
     {
+        hide(val4); hide(g_smul);
         if sk.len() != 32 {
             return Err(Sm2Error::InvalidFieldLen);
         }
-        proof { lemma_key_consts(); assert(sk@.subrange(0, 32) =~= sk@); }
+        proof { lemma_key_consts(); lemma_val4_range(); assert(sk@.subrange(0, 32) =~= sk@); }
         let d = u256_from_be_bytes(sk);
         
         if d.is_zero() || u256_cmp(&d, &SM2_N_MINUS_TWO) > 0 {
@@ -396,6 +471,7 @@ impl Sm2PrivateKey {
                 s_e(s_id(id), abs(self.public_key.point), msg@),
                 be_val(res->Ok_0@.subrange(0, 32)), be_val(res->Ok_0@.subrange(32, 64)))),
     {
+        hide(val4); hide(g_smul);
         let id = shim_id_or_default(id);
         let mut digest = compute_za(id, &self.public_key.point)?;
         proof { lemma_sm3_len(s_za(str_bytes(id), pt_x(abs(self.public_key.point)), pt_y(abs(self.public_key.point))) + msg@); }
@@ -406,16 +482,18 @@ impl Sm2PrivateKey {
 
 //@props C03 C14 C20
     #[verifier::exec_allows_no_decreases_clause]
+    #[verifier::spinoff_prover]
     fn sign_raw(&self, digest: &[u8], sk: &U256) -> (res: Sm2Result<Vec<u8>>)
         requires 1 <= val4(sk@) <= N() - 2,
         ensures res is Ok <==> digest@.len() == 32,
             res is Ok ==> res->Ok_0@.len() == 64 && (exists|k: Seq<u64>| #[trigger] csprng(k) && sig_from_nonce(val4(k), val4(sk@), be_val(digest@),
                 be_val(res->Ok_0@.subrange(0, 32)), be_val(res->Ok_0@.subrange(32, 64)))),
     {
+        hide(val4); hide(g_smul);
         if digest.len() != 32 {
             return Err(Sm2Error::InvalidDigestLen);
         }
-        proof { lemma_key_consts(); lemma_params(); lemma_g_on_curve(); assert(digest@.subrange(0, 32) =~= digest@); }
+        proof { lemma_key_consts(); lemma_params(); lemma_val4_range(); assert(digest@.subrange(0, 32) =~= digest@); }
         let e = u256_from_be_bytes(&digest);
         let n = &SM2_N;
         let s1 = fn_pow(&u256_add(&SM2_ONE, &sk).0, &SM2_N_MINUS_TWO);
@@ -423,19 +501,20 @@ impl Sm2PrivateKey {
             invariant digest@.len() == 32, val4(e@) == be_val(digest@), n@ == SM2_N@, 1 <= val4(sk@) <= N() - 2,
                 val4(s1@) == inv_n(1 + val4(sk@)),
         {
+            proof { lemma_key_consts(); lemma_val4_range(); }
             let k = random_u256();
             let p_x = g_mul(&k).to_affine_point();
             proof {
                 ax_g_order(val4(k@)); lemma_small_mod(val4(k@) as nat, N() as nat);
-                let b = be_bytes(fe(p_x.x@), 32);
+                assert(pt_x(g_smul(val4(k@), G())) == fe(p_x.x@));
                 lemma_be_bytes_len(fe(p_x.x@), 32); lemma_pow256n_32(); lemma_be_roundtrip(fe(p_x.x@), 32);
-                assert(b.subrange(0, 32) =~= b);
+                assert(be_bytes(fe(p_x.x@), 32).subrange(0, 32) =~= be_bytes(fe(p_x.x@), 32));
             }
             let x1 = u256_from_be_bytes(&fp_from_mont(&p_x.x).to_byte_be());
+            proof { assert(val4(x1@) == pt_x(g_smul(val4(k@), G()))); }
             let r = fn_add(&fn_add(&e, &SM2_ZERO), &fn_add(&x1, &SM2_ZERO));
             proof {
-                lemma_add_mod_noop(val4(e@), val4(x1@), N());
-                assert forall|a: Seq<u64>| a.len() == 4 && #[trigger] val4(a) == N() implies a =~= SM2_N@ by { lemma_val4_inj(a, SM2_N@); }
+                assert forall|w: (U256, bool)| #[trigger] val4(w.0@) == N() implies w.0@ =~= SM2_N@ by { lemma_val4_inj(w.0@, SM2_N@); }
             }
             if r.is_zero() || shim_u256_eq(&u256_add(&r, &k).0, n) {
                 continue;
@@ -452,15 +531,17 @@ impl Sm2PrivateKey {
             proof {
                 lemma_be_bytes_len(val4(r@), 32); lemma_be_bytes_len(val4(s@), 32);
                 lemma_be_roundtrip(val4(r@), 32); lemma_be_roundtrip(val4(s@), 32);
-                assert(sig@.subrange(0, 32) =~= be_bytes(val4(r@), 32));
-                assert(sig@.subrange(32, 64) =~= be_bytes(val4(s@), 32));
-                lemma_val4_bounds(r@); lemma_val4_bounds(k@); lemma_val4_bounds(n@);
-                assert(sig_from_nonce(val4(k@), val4(sk@), be_val(digest@), val4(r@), val4(s@)));
+                let h0 = sig@.subrange(0, 32); let h1 = sig@.subrange(32, 64);
+                assert(sig@.len() == 64);
+                assert(h0 =~= be_bytes(val4(r@), 32) ==> be_val(h0) == val4(r@));
+                assert(h1 =~= be_bytes(val4(s@), 32) ==> be_val(h1) == val4(s@));
+                lemma_sign_final(val4(k@), val4(sk@), val4(e@), val4(x1@), val4(r@), val4(s2_1@), val4(s2@), val4(s1@), val4(s@), be_val(h0), be_val(h1));
             }
             return Ok(sig);
         }
     }
 //@props C05 C06 C20
+    #[verifier::spinoff_prover]
     fn decrypt(
         &self,
         ciphertext: &[u8],
@@ -470,6 +551,7 @@ impl Sm2PrivateKey {
         requires sk_ok(*self), ciphertext@.len() < 0x1_0000_0000
         ensures res is Ok ==> dec_accept(val4(self.d@), ciphertext@, compressed, model, res->Ok_0@),
     {
+        hide(val4); hide(g_smul);
         let c1_end_index = match compressed {
             true => 33,
             false => 65,
@@ -490,7 +572,7 @@ impl Sm2PrivateKey {
 
         let kelen = c2_bytes.len();
         let c1_point = Point::from_byte(c1_bytes)?;
-        proof { lemma_key_consts(); lemma_params(); lemma_z_one(c1_point.z@); }
+        proof { lemma_key_consts(); lemma_params(); lemma_val4_range(); lemma_z_one(c1_point.z@); }
         if !c1_point.to_affine_point().is_valid_affine_point() {
             return Err(Sm2Error::CheckPointErr);
         }
@@ -543,8 +625,7 @@ impl Sm2PrivateKey {
         if shim_ne_bytes(&u, c3_bytes) {
             return Err(Sm2Error::HashNotEqual);
         }
-        proof { assert(dec_ok(val4(self.d@), ciphertext@, compressed, model, q, mb@));
-            assert(dec_accept(val4(self.d@), ciphertext@, compressed, model, mb@)); }
+        proof { lemma_decrypt_final(val4(self.d@), ciphertext@, compressed, model, q, c1_bytes@, c2_bytes@, c3_bytes@, sp, mb@); }
         Ok(mb)
     }
 
@@ -557,6 +638,7 @@ fn gen_keypair() -> (res: Sm2Result<(Sm2PublicKey, Sm2PrivateKey)>)
         res is Ok ==> sk_ok(res->Ok_0.1),
         res is Ok ==> sign_term_ok(val4(res->Ok_0.1.d@)),
 {
+    hide(val4); hide(g_smul);
     proof { lemma_key_consts(); }
     let mut d = random_u256();
     while u256_cmp(&d, &SM2_N_MINUS_TWO) > 0
@@ -574,6 +656,7 @@ fn public_from_private(sk: &U256) -> (res: Sm2Result<Sm2PublicKey>)
     requires 1 <= val4(sk@) < N()
     ensures res is Ok, pk_ok(res->Ok_0), abs(res->Ok_0.point) == g_smul(val4(sk@), G())
 {
+    hide(val4); hide(g_smul);
     let p = g_mul(&sk);
     proof { ax_g_order(val4(sk@)); lemma_small_mod(val4(sk@) as nat, N() as nat); lemma_g_on_curve(); }
     if p.is_valid() {
